@@ -118,12 +118,17 @@ func (x Expr) set(data, value any, fun string, one bool) error {
 			case map[string]any:
 				if int(fi) == len(x)-1 { // last one
 					if value == delFlag {
-						delete(tv, string(tf))
+						if _, has = tv[string(tf)]; has {
+							delete(tv, string(tf))
+							if one {
+								return nil
+							}
+						}
 					} else {
 						tv[string(tf)] = value
-					}
-					if one {
-						return nil
+						if one {
+							return nil
+						}
 					}
 				} else if v, has = tv[string(tf)]; has {
 					switch v.(type) {
@@ -164,12 +169,17 @@ func (x Expr) set(data, value any, fun string, one bool) error {
 			case Keyed:
 				if int(fi) == len(x)-1 { // last one
 					if value == delFlag {
-						tv.RemoveValueForKey(string(tf))
+						if _, has = tv.ValueForKey(string(tf)); has {
+							tv.RemoveValueForKey(string(tf))
+							if one {
+								return nil
+							}
+						}
 					} else {
 						tv.SetValueForKey(string(tf), value)
-					}
-					if one {
-						return nil
+						if one {
+							return nil
+						}
 					}
 				} else if v, has = tv.ValueForKey(string(tf)); has {
 					switch v.(type) {
@@ -210,12 +220,17 @@ func (x Expr) set(data, value any, fun string, one bool) error {
 			case gen.Object:
 				if int(fi) == len(x)-1 { // last one
 					if value == delFlag {
-						delete(tv, string(tf))
+						if _, has = tv[string(tf)]; has {
+							delete(tv, string(tf))
+							if one {
+								return nil
+							}
+						}
 					} else {
 						tv[string(tf)] = nodeValue
-					}
-					if one {
-						return nil
+						if one {
+							return nil
+						}
 					}
 				} else if v, has = tv[string(tf)]; has {
 					switch v.(type) {
@@ -762,12 +777,17 @@ func (x Expr) set(data, value any, fun string, one bool) error {
 					case map[string]any:
 						if int(fi) == len(x)-1 { // last one
 							if value == delFlag {
-								delete(tv, tu)
+								if _, has = tv[tu]; has {
+									delete(tv, tu)
+									if one {
+										return nil
+									}
+								}
 							} else {
 								tv[tu] = value
-							}
-							if one {
-								return nil
+								if one {
+									return nil
+								}
 							}
 						} else if v, has = tv[tu]; has {
 							switch v.(type) {
@@ -789,12 +809,17 @@ func (x Expr) set(data, value any, fun string, one bool) error {
 					case Keyed:
 						if int(fi) == len(x)-1 { // last one
 							if value == delFlag {
-								tv.RemoveValueForKey(tu)
+								if _, has = tv.ValueForKey(tu); has {
+									tv.RemoveValueForKey(tu)
+									if one {
+										return nil
+									}
+								}
 							} else {
 								tv.SetValueForKey(tu, value)
-							}
-							if one {
-								return nil
+								if one {
+									return nil
+								}
 							}
 						} else if v, has = tv.ValueForKey(tu); has {
 							switch v.(type) {
@@ -816,12 +841,17 @@ func (x Expr) set(data, value any, fun string, one bool) error {
 					case gen.Object:
 						if int(fi) == len(x)-1 { // last one
 							if value == delFlag {
-								delete(tv, tu)
+								if _, has = tv[tu]; has {
+									delete(tv, tu)
+									if one {
+										return nil
+									}
+								}
 							} else {
 								tv[tu] = nodeValue
-							}
-							if one {
-								return nil
+								if one {
+									return nil
+								}
 							}
 						} else if v, has = tv[tu]; has {
 							switch v.(type) {
